@@ -5,9 +5,9 @@ from __future__ import annotations
 import ast
 
 from ..astutil import inside, norm_cmp
-from ..tutil import normalise
+from ..tutil import normalise, np_call
 from ..cfg import CFG
-from ..core import AnalysisError, const_value
+from ..core import AnalysisError, const_value, walk_own
 from ..defuse import DefUse, Terms, show, walk_term
 from ..defuse import key as tkey
 from ..flow import Flow
@@ -54,181 +54,364 @@ def run(ctx):
 
 
 # ------------------------------------------------------------------ a
+def _second_item(k):
+    """is ``k`` a function returning item 1 of its argument?"""
+    if k is None:
+        return False
+    if k[0] == "call" and k[1] == "operator.itemgetter" and \
+            k[2] == (("const", 1),):
+        return True
+    if k[0] == "lambda" and len(k[1]) == 1:
+        x = ("lparam", k[1][0])
+        return k[2] in (("sub", x, ("const", 1)), ("item", x, 1))
+    return False
+
+
 def _fallback(ctx, f):
+    """Sink-driven: brew returns (psms, models, scores, descs).  Every
+    definition of the returned scores / directions is read as a term
+    together with the conditions under which it takes effect; the clauses
+    are judged on those (so flags, early returns, merged branches, loops
+    versus comprehensions and temporaries do not matter)."""
     prog = ctx.prog
     du = DefUse(prog, f)
     T = Terms(du, phi_vars=True)
     cfg = CFG(f.node)
-    bf = [n for n in ast.walk(f.node) if isinstance(n, ast.Assign)
-          and ast.unparse(n.targets[0]) == "best_feats"]
-    ctx.require(len(bf) == 1 and isinstance(bf[0].value, ast.ListComp)
-                and isinstance(bf[0].value.elt, ast.List),
-                f"{f.qual}: best_feats record list not found")
-    rec = bf[0].value
-    var = rec.generators[0].target.id
-    fields = [ast.unparse(e) for e in rec.elt.elts]
-    ok = fields == [f"{var}.best_feat", f"{var}.feat_pass", f"{var}.desc"] \
-        and ast.unparse(rec.generators[0].iter) == "models"
-    ctx.check(ok, "C07a-record", f,
-              "per-model record is [best_feat, feat_pass, desc] of one model",
-              f"record is {fields} over "
-              f"{ast.unparse(rec.generators[0].iter)}", node=bf[0])
-    # arg-max over the counts
-    am = [n for n in ast.walk(f.node) if isinstance(n, ast.Assign)
-          and isinstance(n.targets[0], ast.Tuple)
-          and isinstance(n.value, ast.Call)
-          and ast.unparse(n.value.func) in ("max", "min")]
-    ctx.require(len(am) == 1, f"{f.qual}: arg-max over best_feats not found")
-    tg = [ast.unparse(e) for e in am[0].targets[0].elts]
-    call = am[0].value
-    key = {k.arg: ast.unparse(k.value) for k in call.keywords}.get("key")
-    arg = ast.unparse(call.args[0]) if call.args else ""
-    ok = (len(tg) == 2 and key == "itemgetter(1)"
-          and ast.unparse(call.func) == "max"
-          and arg == "enumerate(map(itemgetter(1), best_feats))")
-    ctx.check(ok, "C07a-argmax-of-counts", f,
+    from ..astutil import cond_terms
+    from ..tutil import anon, bound_args
+    rets = [n for n in walk_own(f.node) if isinstance(n, ast.Return)]
+    ctx.require(rets and all(isinstance(r.value, ast.Tuple)
+                             and len(r.value.elts) == 4 for r in rets),
+                f"{f.qual}: does not return (psms, models, scores, descs)")
+
+    def nrm(t):
+        return anon(normalise(t))
+
+    def conds_of(node):
+        out = []
+        for t, o in cond_terms(cfg, T, node):
+            t = nrm(t)
+            while t[0] == "un" and t[1] == "not":
+                t, o = t[2], not o
+            out.append(norm_cmp(t, o) or (t, o))
+        return out
+
+    def defs_at(pos):
+        """[(term, conditions, node)] of everything returned at ``pos``"""
+        out, seen = [], set()
+        for r in rets:
+            t = T.of(r.value.elts[pos])
+            if t[0] == "var" and t in T.var_defs:
+                for d in T.var_defs[t]:
+                    if d.uid in seen or d.node is None:
+                        continue
+                    seen.add(d.uid)
+                    out.append((nrm(T.of_def(d)), conds_of(d.node), d.node))
+            else:
+                ds = du.defs_of(r.value.elts[pos]) if isinstance(
+                    r.value.elts[pos], ast.Name) else ()
+                node = next(iter(ds)).node if len(ds) == 1 else r
+                if id(node) in seen:
+                    continue
+                seen.add(id(node))
+                out.append((nrm(t), conds_of(node), node))
+        return out
+
+    PSMS = T.of(rets[0].value.elts[0])
+    sc_defs, de_defs = defs_at(2), defs_at(3)
+    n_psms = ("call", "builtins.len", (PSMS,), ())
+
+    def const_dirs(t):
+        """DIR when t is one DIR per collection: [DIR] * len(psms) or
+        [DIR for _ in psms]"""
+        if t[0] == "bin" and t[1] == "*":
+            for a_, b_ in ((t[2], t[3]), (t[3], t[2])):
+                if a_[0] == "list" and len(a_[1]) == 1 and b_ == n_psms:
+                    return a_[1][0]
+        if t[0] == "comp" and t[1] == "list" and len(t[3]) == 1 and \
+                not t[3][0][2] and t[3][0][1] == PSMS:
+            return t[2]
+        return None
+
+    other = [t for t, c, n in de_defs if const_dirs(t) is None]
+    ctx.require(de_defs and not other,
+                f"{f.qual}: definitions of the returned directions not "
+                f"recognised: {[show(t, 60) for t, _c, _n in de_defs]}")
+
+    def has_extremum(v):
+        """is v a variable one of whose definitions takes a max / min?"""
+        return v[0] == "var" and any(
+            isinstance(x, tuple) and x[:2] in (("call", "builtins.max"),
+                                               ("call", "builtins.min"))
+            for d in T.var_defs.get(v, [])
+            for x in walk_term(T.of_def(d)))
+
+    # the comparison: a condition  X < Y / X <= Y  between the learned
+    # scores' count and the count of the best feature (the side that comes
+    # out of an arg-max over the models)
+    found = {}
+    for t, c, n in de_defs:
+        for c_ in c:
+            if c_[0] in ("lt", "le") and (has_extremum(c_[1])
+                                          or has_extremum(c_[2])):
+                found.setdefault((c_[1], c_[2]) if has_extremum(c_[2])
+                                 else (c_[2], c_[1]), []).append(
+                    (c_, t, c, n))
+    ctx.require(len(found) == 1, f"{f.qual}: fallback comparison not found")
+    (P, F), uses = next(iter(found.items()))
+    # definitions taken when the feature count is the larger one
+    fb_d = [(const_dirs(t), c, n) for c_, t, c, n in uses
+            if c_[1] == P and c_[2] == F]
+    md_d = [(t, c, n) for c_, t, c, n in uses if c_[1] == F and c_[2] == P]
+    ctx.require(len(fb_d) == 1 and md_d, f"{f.qual}: the two outcomes of "
+                "the comparison do not both set the directions")
+    DESC, fb_conds, fb_node = fb_d[0]
+    kind = [c_[0] for c_ in fb_conds if c_[1:] == (P, F)][0]
+    ctx.check(kind == "lt" and all(
+        ("le", F, P) in c for _t, c, _n in md_d),
+        "C07a-comparison", f,
+        "fallback iff the best feature accepted strictly more targets "
+        "than the learned scores",
+        f"fallback direction under {show(P, 40)} "
+        f"{'<' if kind == 'lt' else '<='} {show(F, 40)}: with equal counts "
+        "the learned model must be kept", node=fb_node)
+    ctx.check(all(const_dirs(t) == ("const", True) for t, _c, _n in md_d),
+              "C07a-model-direction", f,
+              "without fallback the learned scores are ranked higher = "
+              "better",
+              f"directions without fallback: "
+              f"{[show(t, 60) for t, _c, _n in md_d]}", node=md_d[0][2])
+    # ---- the per-model counts and their arg-max
+    fdefs = T.var_defs.get(F, [])
+    maxes = []
+    for d in fdefs:
+        t = nrm(T.of_def(d))
+        ms = [x for x in walk_term(t) if isinstance(x, tuple)
+              and x[:2] in (("call", "builtins.max"),
+                            ("call", "builtins.min"))]
+        if ms:
+            maxes.append((t, d, ms[0]))
+    zeros = [d for d in fdefs if T.of_def(d) == ("const", 0)]
+    ctx.require(len(maxes) == 1, f"{f.qual}: arg-max over the per-model "
+                "counts not found")
+    M = maxes[0][2]
+    MODELS = None
+    ok_am = False
+    why_am = f"the count compared is {show(maxes[0][0], 160)}"
+    if M[1] == "builtins.max" and len(M[2]) == 1 and \
+            M[2][0][0] == "call" and \
+            M[2][0][1] == "builtins.enumerate" and len(M[2][0][2]) == 1 and \
+            _second_item(dict(M[3]).get("key")) and \
+            maxes[0][0] in (("item", M, 1), ("sub", M, ("const", 1))):
+        C = M[2][0][2][0]
+        if C[0] == "call" and C[1] == "builtins.map" and len(C[2]) == 2 \
+                and C[2][0][0] == "call" and \
+                C[2][0][1] == "operator.itemgetter" and \
+                len(C[2][0][2]) == 1:
+            X = C[2][1]
+            C = ("comp", "list", ("sub", ("elem", X), C[2][0][2][0]),
+                 (((), X, ()),))
+        C = nrm(C)
+        if C[0] == "comp" and len(C[3]) == 1 and not C[3][0][2]:
+            MODELS = C[3][0][1]
+            ok_am = C[2] == ("attr", ("elem", MODELS), "feat_pass")
+            why_am = f"counts compared: {show(C, 120)}"
+            if not ok_am:
+                why_am += (": the maximum is not taken over the accepted "
+                           "counts alone")
+    ctx.check(ok_am, "C07a-argmax-of-counts", f,
               "the winning record is the arg-max of the accepted counts "
-              "(field 1 = feat_pass)",
-              f"{ast.unparse(am[0])[:140]}", node=am[0])
-    idx_name, tot_name = tg if len(tg) == 2 else ("?", "?")
-    # comparison guards the fallback
-    ifs = [n for n in ast.walk(f.node) if isinstance(n, ast.If)
-           and isinstance(n.test, ast.Compare)
-           and tot_name in ast.unparse(n.test)]
-    ctx.require(len(ifs) == 1, f"{f.qual}: fallback comparison not found")
-    fb = ifs[0]
-    test = fb.test
-    l, op, r = ast.unparse(test.left), type(test.ops[0]).__name__, \
-        ast.unparse(test.comparators[0])
-    pred_name = r if l == tot_name else l
-    ok = (l == tot_name and op in ("Gt",)) or (r == tot_name and op == "Lt")
-    ctx.check(ok, "C07a-comparison", f,
-              "fallback iff the best feature accepted strictly more targets "
-              "than the learned scores",
-              f"comparison is '{ast.unparse(test)}'", node=fb)
-    # pred_total = sum of (pred == 1).sum() over update_labels(...) results
-    pt = T.of([n for n in ast.walk(test) if isinstance(n, ast.Name)
-               and n.id == pred_name][0])
-    ul_calls = [x for x in walk_term(pt)
-                if x[0] == "call" and x[1] == "mokapot.dataset.update_labels"]
+              "(feat_pass of every fold model)", why_am,
+              node=maxes[0][1].node)
+    if MODELS is None:
+        # needed below to resolve the record fields
+        for x in walk_term(M):
+            if isinstance(x, tuple) and x and x[0] == "comp" and \
+                    len(x[3]) == 1 and x[2][0] in ("list", "tuple") and \
+                    len(x[2][1]) == 3:
+                MODELS = x[3][0][1]
+    IDX = ("item", M, 0)
+
+    def field(t):
+        """(field name, index term) when t is <models>[i].<field>, read
+        directly or through the per-model record list"""
+        t = nrm(t)
+        if t[0] == "attr" and t[1][0] == "sub" and MODELS is not None \
+                and t[1][1] == MODELS:
+            return t[2], t[1][2]
+        pos = None
+        if t[0] == "item":
+            pos, base = t[2], t[1]
+        elif t[0] == "sub" and t[2][0] == "const":
+            pos, base = t[2][1], t[1]
+        if pos is not None and base[0] == "sub" and base[1][0] == "comp" \
+                and len(base[1][3]) == 1 and not base[1][3][0][2]:
+            rec, it = base[1][2], base[1][3][0][1]
+            if rec[0] in ("list", "tuple") and isinstance(pos, int) and \
+                    pos < len(rec[1]) and (MODELS is None or it == MODELS):
+                e = rec[1][pos]
+                if e[0] == "attr" and e[1] == ("elem", it):
+                    return e[2], base[2]
+        return None
+
+    def same_idx(i):
+        return i in (IDX, ("sub", M, ("const", 0)))
+
+    fd = field(DESC)
+    ctx.check(fd is not None and fd[0] == "desc" and same_idx(fd[1]),
+              "C07a-fallback-direction", f,
+              "on fallback every collection gets the winning feature's "
+              "direction",
+              f"fallback directions are {show(DESC, 120)}", node=fb_node)
+    # ---- fallback scores: the winning feature's column of each collection
+    fb_s = [(t, c, n) for t, c, n in sc_defs if ("lt", P, F) in c]
+    ok_s, ok_rec = False, False
+    why_s = f"{[show(t, 100) for t, _c, _n in fb_s]}"
+    if len(fb_s) == 1:
+        t = fb_s[0][0]
+        if t[0] == "comp" and len(t[3]) == 1 and not t[3][0][2] and \
+                t[3][0][1] == PSMS:
+            e = t[2]
+            if e[0] == "attr" and e[2] == "values":
+                e = e[1]
+            elif e[0] == "mcall" and e[2] == "to_numpy":
+                e = e[1]
+            if e[0] == "mcall" and e[1] == ("elem", PSMS) and \
+                    e[2] == "read_data":
+                cols = dict(e[4]).get("columns") or (e[3][0] if e[3]
+                                                     else None)
+                if cols is not None and cols[0] == "list" and \
+                        len(cols[1]) == 1:
+                    ff = field(cols[1][0])
+                    ok_s = ff is not None and ff[0] == "best_feat"
+                    ok_rec = ok_s and same_idx(ff[1]) and fd is not None \
+                        and ff[1] == fd[1]
+                    if not ok_s:
+                        why_s = ("the column read is "
+                                 f"{show(cols[1][0], 100)}, not the winning "
+                                 "model's best_feat")
+    ctx.check(ok_s, "C07a-fallback-scores", f,
+              "on fallback the scores are that feature's column of each "
+              "collection", why_s, node=fb_node)
+    ctx.check(ok_rec, "C07a-winning-record-used", f,
+              "feature name and direction come from the same winning "
+              "record", "name and direction are read at different indices, "
+              "or not at the arg-max", node=fb_node)
+    ctx.check(fd is not None and MODELS is not None, "C07a-record", f,
+              "per-model record is (best_feat, feat_pass, desc) of one "
+              "model", "record not resolvable to the fold models' fields",
+              node=fb_node)
+    # ---- without fallback: learned scores kept, higher = better
+    kept = not any(("le", F, P) in c for _t, c, _n in sc_defs)
+    ctx.check(kept, "C07a-model-direction", f,
+              "without fallback the learned scores are kept",
+              "the scores are replaced on the no-fallback path",
+              node=md_d[0][2])
+    # ---- the learned scores' count
+    pt = T.of_defs(T.var_defs[P]) if P in T.var_defs else P
+    pterms = [nrm(T.of_def(d)) for d in T.var_defs.get(P, [])] or [P]
+    ul_calls = [x for t in pterms for x in walk_term(t)
+                if isinstance(x, tuple) and x and x[0] == "call"
+                and x[1] == "mokapot.dataset.update_labels"]
     ok_pt = bool(ul_calls) and any(
-        x[0] == "cmp" and x[1] == "==" and x[3] == ("const", 1)
-        for x in walk_term(pt))
+        isinstance(x, tuple) and x and x[0] == "cmp" and x[1] == "=="
+        and ("const", 1) in (x[2], x[3])
+        for t in pterms for x in walk_term(t))
     ctx.check(ok_pt, "C07a-model-count", f,
               "the learned scores' count is the number of labels == 1 from "
-              "update_labels", f"pred_total = {show(pt, 160)}", node=fb)
+              "update_labels", f"pred_total = {[show(t, 120) for t in pterms]}",
+              node=fb_node)
     if ul_calls:
-        ulf = prog.func("mokapot.dataset.update_labels")
         c = ul_calls[0]
-        bound = dict(zip(ulf.params, c[2]))
-        bound.update(dict(c[3]))
+        bound = bound_args(prog, c) or {}
         fdr = bound.get("eval_fdr")
         ctx.check(fdr == ("param", "test_fdr"), "C07a-count-at-test-fdr", f,
                   "the learned scores are counted at the caller's test_fdr",
                   "update_labels is evaluated at "
                   f"{show(fdr, 40) if fdr else 'its default eval_fdr'}, not "
                   "at brew's test_fdr: the comparison with the best feature "
-                  "is made at the wrong threshold", node=fb)
-        sc = bound.get("scores")
-        ok_sc = sc is not None and sc[0] == "zipelem" and sc[1] == 1 and \
-            tkey(sc[2][0]) == "psms" or (sc is not None and "scores" in
-                                         tkey(sc, 200))
-        tc = bound.get("target_column")
-        fn = bound.get("file_name")
-        ok_cols = (tc is not None and tkey(tc).endswith(".target_column")
-                   and fn is not None and tkey(fn).endswith(".filename"))
+                  "is made at the wrong threshold", node=fb_node)
+        sc, tc, fn = (bound.get("scores"), bound.get("target_column"),
+                      bound.get("file_name"))
+
+        def coll_of(t):
+            """the collection element a .filename / .target_column is
+            read from"""
+            return t[1] if t is not None and t[0] == "attr" else None
+        ce = coll_of(fn)
+        ok_cols = (ce is not None and coll_of(tc) == ce
+                   and fn[2] == "filename" and tc[2] == "target_column")
+        ok_sc = False
+        if ok_cols and sc is not None:
+            if ce[0] == "zipelem" and sc[0] == "zipelem" and \
+                    ce[2] == sc[2] and ce[1] == 0 and sc[1] == 1 and \
+                    ce[2][0] == PSMS:
+                ok_sc = True
+            elif ce[0] == "elem" and sc[0] == "sub" and \
+                    sc[2] == ("idx", ce[1]):
+                ok_sc = True
         ctx.check(ok_sc and ok_cols, "C07a-count-same-collection", f,
                   "each collection's scores are labelled against that "
                   "collection's own file and label column",
                   f"update_labels({show(fn, 40) if fn else None}, "
                   f"{show(sc, 40) if sc else None}, "
-                  f"{show(tc, 40) if tc else None})", node=fb)
+                  f"{show(tc, 40) if tc else None})", node=fb_node)
         desc_a = bound.get("desc")
         ctx.check(desc_a is None or desc_a == ("const", True),
                   "C07a-model-scores-descending", f,
                   "learned scores are counted with higher = better",
-                  f"desc={show(desc_a, 40) if desc_a else None}", node=fb)
-    # fallback branch
-    body_assign = {}
-    for s in fb.body:
-        if isinstance(s, ast.Assign):
-            body_assign[ast.unparse(s.targets[0])] = s
-    unpack = [s for s in fb.body if isinstance(s, ast.Assign)
-              and isinstance(s.targets[0], ast.Tuple)]
-    ok_u = False
-    feat_n = desc_n = None
-    if len(unpack) == 1:
-        names = [ast.unparse(e) for e in unpack[0].targets[0].elts]
-        src = ast.unparse(unpack[0].value)
-        if len(names) == 3 and src == f"best_feats[{idx_name}]":
-            feat_n, desc_n = names[0], names[2]
-            ok_u = True
-    ctx.check(ok_u, "C07a-winning-record-used", f,
-              "feature name and direction are unpacked from the winning "
-              "record (fields 0 and 2)",
-              f"{[ast.unparse(u) for u in unpack]}", node=fb)
-    if ok_u:
-        d = body_assign.get("descs")
-        ok_d = d is not None and ast.unparse(d.value) in (
-            f"[{desc_n}] * len(psms)", f"len(psms) * [{desc_n}]",
-            f"[{desc_n} for _ in psms]")
-        ctx.check(ok_d, "C07a-fallback-direction", f,
-                  "on fallback every collection gets the winning feature's "
-                  "direction",
-                  f"descs = {ast.unparse(d.value) if d else None}", node=fb)
-        s = body_assign.get("scores")
-        ok_s = False
-        why = ast.unparse(s.value)[:120] if s else "scores not replaced"
-        if s is not None and isinstance(s.value, ast.ListComp):
-            e = s.value.elt
-            txt = ast.unparse(e)
-            v = s.value.generators[0].target.id
-            ok_s = (ast.unparse(s.value.generators[0].iter) == "psms"
-                    and f"columns=[{feat_n}]" in txt.replace(" ", "")
-                    .replace("columns=[", "columns=[")
-                    and txt.startswith(f"{v}.read_data("))
-        ctx.check(ok_s, "C07a-fallback-scores", f,
-                  "on fallback the scores are that feature's column of each "
-                  "collection", why, node=fb)
-    else_assign = {ast.unparse(s.targets[0]): s for s in fb.orelse
-                   if isinstance(s, ast.Assign)}
-    d = else_assign.get("descs")
-    ok_e = d is not None and ast.unparse(d.value) in (
-        "[True] * len(psms)", "len(psms) * [True]") and \
-        "scores" not in else_assign
-    ctx.check(ok_e, "C07a-model-direction", f,
-              "without fallback the learned scores are kept and ranked "
-              "higher = better",
-              f"else-branch: { {k: ast.unparse(v.value) for k, v in else_assign.items()} }",
-              node=fb)
-    # override: all models forced -> feat_total = 0 (never falls back)
-    ov = cfg.guards(am[0])
-    from ..astutil import guard_says
-    ok_o = guard_says(ov, "all([m.override for m in models])", False)
-    zero = [n for n in ast.walk(f.node) if isinstance(n, ast.Assign)
-            and ast.unparse(n.targets[0]) == tot_name
-            and const_value(n.value) == 0]
-    ctx.check(ok_o and len(zero) == 1, "C07a-override", f,
+                  f"desc={show(desc_a, 40) if desc_a else None}",
+                  node=fb_node)
+    # ---- override: all models forced -> count 0 (never falls back)
+    ALLOV = None
+    if MODELS is not None:
+        ALLOV = ("call", "builtins.all", (("comp", "list", (
+            "attr", ("elem", MODELS), "override"), (((), MODELS, ()),)),),
+            ())
+    def forced(node, outcome):
+        return any(c_ == (ALLOV, outcome) or (
+            c_[0] == ALLOV[:2] if False else False)
+            for c_ in conds_of(node)) if ALLOV else False
+    ok_o = len(zeros) == 1 and forced(zeros[0].node, True) and \
+        forced(maxes[0][1].node, False)
+    ctx.check(ok_o, "C07a-override", f,
               "the comparison is skipped (count 0) only when every model is "
-              "forced", f"guards: {[ast.unparse(g[0]) for g in ov]}",
-              node=am[0])
-    # failed training -> zero scores
-    z = [n for n in ast.walk(f.node) if isinstance(n, ast.Assign)
-         and ast.unparse(n.targets[0]) == "scores"
-         and "np.zeros" in ast.unparse(n.value)]
-    ctx.check(len(z) == 1 and ast.unparse(z[0].value) ==
-              "[np.zeros(x) for x in data_size]", "C07a-untrained-zeros", f,
-              "untrained fold models yield all-zero scores (so any feature "
-              "that accepts a target wins the comparison)",
-              f"{[ast.unparse(x.value) for x in z]}", node=f.node)
-    # the comparison happens on every path before returning
-    rets = [n for n in ast.walk(f.node) if isinstance(n, ast.Return)]
-    ok_r = all(cfg.every_path_passes(cfg.entry.id, cfg.node_of(r).id,
-                                     {cfg.node_of(fb).id}) for r in rets)
+              "forced",
+              f"count 0 under {cfg.conditions(zeros[0].node) if zeros else None}"
+              f"; arg-max under {cfg.conditions(maxes[0][1].node)}",
+              node=maxes[0][1].node)
+    # ---- failed training -> zero scores
+    z = []
+    for t, c, n in sc_defs:
+        if t[0] == "comp" and len(t[3]) == 1 and not t[3][0][2]:
+            e = np_call(t[2])
+            if e and e[0] == "zeros":
+                z.append((t, c, n, e))
+    ok_z = False
+    if len(z) == 1:
+        t, c, n, e = z[0]
+        size = e[1][0] if e[1] else None
+        want = ("call", "builtins.len", (
+            ("attr", ("elem", PSMS), "spectra_dataframe"),), ())
+        ok_z = t[3][0][1] == PSMS and size == want
+    ctx.check(ok_z, "C07a-untrained-zeros", f,
+              "untrained fold models yield all-zero scores, one per PSM of "
+              "each collection (so any feature that accepts a target wins "
+              "the comparison)",
+              f"{[show(x[0], 100) for x in z]}", node=f.node)
+    # ---- the comparison happens on every path before returning
+    tests = [cfg.stmt_of(t_) for t_, _o in cfg.necessary_conditions(fb_node)
+             if any(norm_cmp(nrm(T.of(t_)), o_) == ("lt", P, F)
+                    or norm_cmp(nrm(T.of(t_)), not o_) == ("lt", P, F)
+                    for o_ in (True,))]
+    ctx.require(len(tests) >= 1, f"{f.qual}: comparison statement not found")
+    fbn = cfg.node_of(tests[0]).id
+    ok_r = all(cfg.every_path_passes(cfg.entry.id, cfg.node_of(r).id, {fbn})
+               for r in rets)
     ctx.check(ok_r, "C07a-comparison-on-every-path", f,
               "every return of brew passes the model-versus-feature "
               "comparison", "a path returns scores without the comparison",
-              node=fb)
+              node=tests[0])
 
 
 def _starting_labels(ctx, f, fit):
